@@ -187,7 +187,8 @@ Definition step (l : lab) (s : cl) : cl :=
       if negb (started s) then
         let s1 := emit (set_conn s true) EStart in
         let s2 := set_run s1 true false in
-        let s3 := set_timer (set_reqC s2 0) TLong false in
+        (* Start discards a ready token and conclusions that the previous Stop overtook (repairs F31, F32) *)
+        let s3 := set_timer (set_concC (set_readyC (set_reqC s2 0) 0) []) TLong false in
         set_paused (set_handler (set_stuck (set_rdy s3 true) false) true false) false
       else s
   | PumpStop =>
